@@ -252,6 +252,13 @@ def _get_unused_imports(ast_tree: ast.Module) -> Collection[str]:
     imports = tracing.get_imported_names(ast_tree)
 
     names = {node.id for node in core.walk(ast_tree, ast.Name(ctx=ast.Load))}
+    # `del name` and `name += 1` need the binding as well
+    names.update(node.id for node in core.walk(ast_tree, ast.Name(ctx=ast.Del)))
+    names.update(
+        node.target.id
+        for node in core.walk(ast_tree, ast.AugAssign)
+        if isinstance(node.target, ast.Name)
+    )
     for node in core.walk(ast_tree, ast.Attribute):
         try:
             full_name = _recursive_attribute_name(node)
